@@ -169,11 +169,28 @@ Qed.
 Theorem default_designation_neutral : forall fl mag0 pkt dc rest, 1 <= mag0 <= 8 -> pkt = 28 \/ pkt = 29 -> dc = 0 \/ dc = 4 ->
   neutral_unit mag0 (3, enc_packet fl mag0 pkt (ham84_enc dc :: 0 :: 0 :: 0 :: rest)) = true.
 Proof.
-  intros fl mag0 pkt dc rest Hm Hp Hd. unfold neutral_unit.
+  intros fl mag0 pkt dc rest Hm Hp Hd. unfold neutral_unit, desig_ok, desig_of.
   rewrite (unit_addr_enc fl mag0 pkt _ (mag_addr_ok mag0 pkt Hm ltac:(lia))). rewrite N.eqb_refl.
-  cbn [length nth tl Nat.ltb Nat.leb negb andb].
+  cbn [length nth tl Nat.ltb Nat.leb negb andb fst snd].
   assert (Hdec : ham84_dec (ham84_enc dc) = Some dc) by (apply ham84_dec_enc_spec; lia). rewrite Hdec.
   destruct Hp as [-> | ->]; destruct Hd as [-> | ->]; vm_compute; reflexivity.
+Qed.
+(* an M/29 packet (or an X/28 one in format 1) of the selected magazine with designation code 0 or 4 is a designation packet
+   whatever its first triplet says *)
+Theorem designation_unit : forall fl mag0 pkt dc t0 t1 t2 rest, 1 <= mag0 <= 8 -> dc = 0 \/ dc = 4 ->
+  pkt = 29 \/ (pkt = 28 /\ N.land (triplet_of [t0; t1; t2]) 15 = 0) ->
+  desig_ok mag0 (3, enc_packet fl mag0 pkt (ham84_enc dc :: t0 :: t1 :: t2 :: rest)) = true
+  /\ desig_of (3, enc_packet fl mag0 pkt (ham84_enc dc :: t0 :: t1 :: t2 :: rest)) = (pkt, triplet_of [t0; t1; t2]).
+Proof.
+  intros fl mag0 pkt dc t0 t1 t2 rest Hm Hd Hp. unfold desig_ok, desig_of.
+  assert (Hpk : pkt < 32) by (destruct Hp as [-> | [-> _]]; lia).
+  rewrite (unit_addr_enc fl mag0 pkt _ (mag_addr_ok mag0 pkt Hm Hpk)). rewrite N.eqb_refl.
+  cbn [length nth tl Nat.ltb Nat.leb negb andb fst snd].
+  assert (Hdec : ham84_dec (ham84_enc dc) = Some dc) by (apply ham84_dec_enc_spec; destruct Hd as [-> | ->]; lia). rewrite Hdec.
+  assert (Ht : triplet_of (t0 :: t1 :: t2 :: rest) = triplet_of [t0; t1; t2]) by reflexivity. rewrite Ht.
+  split; [|reflexivity].
+  assert (Hdc : (dc =? 0) || (dc =? 4) = true) by (destruct Hd as [-> | ->]; reflexivity). rewrite Hdc.
+  destruct Hp as [-> | [-> Hn]]; cbn [N.eqb Pos.eqb orb andb negb]; [reflexivity|]. rewrite Hn. reflexivity.
 Qed.
 
 (* a page number with a hexadecimal digit is never one of the decimal pages 0..99 a reader can select *)
@@ -221,11 +238,13 @@ Definition ex_mux : mux :=
                   (1040%Z, (false, (3, enc_packet 231 8 28 [ham84_enc 0; 0; 0; 0; 77])));
                   (1040%Z, (false, (3, enc_packet 231 8 29 [ham84_enc 4; 64; 192; 5])));
                   (1040%Z, (true, ex_row_unit 3 ex_row2))]
-                 (Some ((1100%Z, hdr_unit 231 8 (ex_hdr 8 9 0 false)), [(1100%Z, ex_row_unit 5 ex_row1)]));
+                 (Some ((1100%Z, hdr_unit 231 8 (ex_hdr 8 9 0 false)),
+                        [(1100%Z, ex_row_unit 5 ex_row1); (1100%Z, (3, enc_packet 231 8 29 [ham84_enc 0; 0; 24; 0]))]));
           mkImux (hdr_unit 231 8 (ex_hdr 8 8 7 false)) [] None;
           mkImux (hdr_unit 231 8 (ex_hdr 8 8 7 false))
                  [(4500%Z, (false, (3, 231 :: 39 :: skipn 2 (enc_packet 231 8 22 (enc_row (row_cells ex_row2))))));
-                  (4600%Z, (true, (3, enc_packet 231 8 22 (map sym_byte ex_syms))))] None ].
+                  (4600%Z, (true, (3, enc_packet 231 8 22 (map sym_byte ex_syms))));
+                  (4600%Z, (false, (3, enc_packet 231 8 28 [ham84_enc 4; 0; 24; 0])))] None ].
 Fixpoint chunk3 (evs : list tunit) (fuel : nat) : list pes :=
   match fuel, evs with
   | S f, (t, u) :: (t2, u2) :: (t3, u3) :: r => if ((t =? t2) && (t2 =? t3))%Z then PUnits t 16 [u; u2; u3] [] :: chunk3 r f else PUnits t 21 [u] [3; 44; 231] :: chunk3 ((t2, u2) :: (t3, u3) :: r) f
@@ -241,13 +260,18 @@ Definition ex_peses : list pes :=
 Example ex_mux_ok : mux_ok ex_sched ex_mux = true. Proof. vm_compute. reflexivity. Qed.
 Example ex_pes_ok : forallb pes_ok ex_peses = true /\ flat_map pes_units ex_peses = events ex_sched ex_mux.
 Proof. split; vm_compute; reflexivity. Qed.
-Example ex_stream : ttx_feed 888 (map enc_pes ex_peses) = Ok (cues_of ex_sched 900 5000).
-Proof. exact (stream_given_page ex_sched ex_mux ex_peses ex_mux_ok (proj1 ex_pes_ok) (proj2 ex_pes_ok)). Qed.
-(* the cues, computed: "#$§ß" (German option) above "Hi" | "ÄredÜ" at [100 ms, 2100 ms), then under option 7 "Hi" | "«red»" at [3600 ms, 4100 ms) *)
-Example ex_cues_nonempty : length (cues_of ex_sched 900 5000) = 2%nat /\
-  map (fun c => (c_st c, c_en c, map (map (fun r => tr_text r)) (c_lines c))) (cues_of ex_sched 900 5000)
-  = [(100%Z, 2100%Z, [[[35;36;194;167;195;159]]; [[72;105]; [195;132;114;101;100;195;156]]]);
-     (3600%Z, 4100%Z, [[[72]; [194;171;114;101;100;194;187]]])].
+(* an M/29 packet behind the first terminating header and, in the last instance, an X/28 packet designate character set 6
+   (first triplet 0x1800).  X/28 designations take precedence over M/29 ones; the last one applies to every page, the
+   first one included *)
+Example ex_desig : desig_final false 8 ex_mux = 6144. Proof. vm_compute. reflexivity. Qed.
+Example ex_stream : ttx_feed 888 (map enc_pes ex_peses) = Ok (cues_of ex_sched 900 5000 6144).
+Proof. rewrite <- ex_desig. exact (stream_given_page ex_sched ex_mux ex_peses ex_mux_ok (proj1 ex_pes_ok) (proj2 ex_pes_ok)). Qed.
+(* the cues, computed.  Under designation 6 the (6, option 4) pair has no table entry: the Latin G0 set without national
+   option ("#$@~" reads as pound, $, @, division sign; "[red]" as guillemets); (6, option 7) is the Greek G0 set *)
+Example ex_cues_nonempty : length (cues_of ex_sched 900 5000 6144) = 2%nat /\
+  map (fun c => (c_st c, c_en c, map (map (fun r => tr_text r)) (c_lines c))) (cues_of ex_sched 900 5000 6144)
+  = [(100%Z, 2100%Z, [[[194;163;36;64;195;183]]; [[72;105]; [194;171;114;101;100;194;187]]]);
+     (3600%Z, 4100%Z, [[[206;152]; [206;171;207;130;206;181;206;180;206;173]]])].
 Proof. split; vm_compute; reflexivity. Qed.
 Example ex_mux_auto_ok : mux_ok_auto ex_sched (mkMux [(900%Z, (255, repeat 255 44))] (mx_insts ex_mux)) = true.
 Proof. vm_compute. reflexivity. Qed.
